@@ -25,6 +25,7 @@ func checkC08(w *World, r *Report, tier string) propMeta {
 	c08R3R4(w, r)
 	c08R5(w, r)
 	c08R6(w, r)
+	c05R9(w, r) // the flush worker exits only after draining what was queued: after the deadline its queued waiters still get the abandonment error
 	return propMeta{
 		explanation: "Stop's contract as path and ownership rules: (R1) IngestRows/Flush return the ErrEngineStopped object on the stopped-true edge read under stateMu, and every ingest-queue send sits in the stopped-checked lock window; (R2) Stop returns nil only after receiving from a channel closed only after wg.Wait, with wg.Add(2) before both worker starts and a deferred wg.Done in each worker; (R3) the deadline is armed (context.AfterFunc(ctx, flushCancel)) before Stop takes the state lock; (R4) every non-nil return of Stop is preceded on its path by a direct call of flushCancel — registration through AfterFunc alone is not enough for late-running context implementations; (R5) every store call in handleFlush follows the nil edge of its entry ctx.Err() check and the worker passes flushCtx; (R6) every channel send in the write-path region is a select case with a Done() alternative or a default, and the waiter sends use the flush context.",
 		notDecided:  "'returns by roughly that deadline' (timing: the wait for stateMu.Lock is bounded only by the pipeline unwinding); behaviour of ctx-ignoring stores once a call is in flight.",
@@ -528,7 +529,7 @@ func counterMatches(w *World, v ssa.Value, want string) bool {
 
 func c10R1(w *World, r *Report) {
 	const rule = "C10.R1"
-	r.rule(rule, "every limit is a live, non-strict trigger whose true edge always reaches flushBufferedData before processIngestRequest returns; counters advance per buffered row", 11)
+	r.rule(rule, "every limit is a live, non-strict trigger whose true edge always reaches flushBufferedData before processIngestRequest returns; counters advance per buffered row", 16)
 	fn := fnOrUndecided(w, r, rule, "BloomSearchEngine.processIngestRequest")
 	if fn == nil {
 		return
@@ -599,6 +600,59 @@ func c10R1(w *World, r *Report) {
 			}
 		}
 		r.check(bad == "", rule, "trigger:"+l.limit, w.pos(fn.Pos()), "non-strict comparison on the matching counter; its true edge always reaches flushBufferedData", "after config."+l.limit+" is reached, processIngestRequest can return (at "+bad+") without calling flushBufferedData")
+	}
+	// every limit check is live: the conditions that decide whether a limit
+	// comparison runs at all are only loop conditions, error tests, the
+	// already-decided flag, other limit comparisons, and the request-shape tests
+	// that precede buffering (force flush, empty batch, buffer-start bookkeeping)
+	for _, b := range fn.Blocks {
+		iff, ok := b.Instrs[len(b.Instrs)-1].(*ssa.If)
+		if !ok {
+			continue
+		}
+		cmp, ok := iff.Cond.(*ssa.BinOp)
+		if !ok {
+			continue
+		}
+		lim := ""
+		for _, side := range []ssa.Value{cmp.X, cmp.Y} {
+			if p := w.path(side); strings.HasPrefix(p, "p:b.config.Max") {
+				lim = strings.TrimPrefix(p, "p:b.config.")
+			}
+		}
+		isLimit := false
+		for _, l := range c10Limits {
+			if l.limit == lim {
+				isLimit = true
+			}
+		}
+		if !isLimit {
+			continue
+		}
+		var odd []string
+		for d := b; d != nil; d = d.Idom() {
+			dom := d.Idom()
+			if dom == nil {
+				break
+			}
+			ci, ok := dom.Instrs[len(dom.Instrs)-1].(*ssa.If)
+			if !ok {
+				continue
+			}
+			controls := false
+			for _, sb := range dom.Succs {
+				if (sb == d || sb.Dominates(d)) && len(sb.Preds) == 1 {
+					controls = true
+				}
+			}
+			if !controls {
+				continue
+			}
+			if !c10AllowedGuard(w, ci.Cond, dom) {
+				odd = append(odd, w.path(ci.Cond)+" at "+w.instrPos(ci))
+			}
+		}
+		r.check(len(odd) == 0, rule, "live:"+lim+"@"+w.instrPos(iff), w.instrPos(iff), "reached whenever rows are buffered and no flush is decided yet", "the comparison against config."+lim+" runs only when "+strings.Join(odd, "; ")+": under some configuration or state the limit is never tested and the buffered rows wait for another trigger")
 	}
 	// counters advance once per buffered row: the only store to each counter in
 	// this function is a self-add inside the per-row loop (the innermost loop
@@ -711,6 +765,24 @@ func c10R2(w *World, r *Report) {
 			}
 		}
 	})
+	// nothing re-arms the ticker: a Reset (or Stop outside the deferred one) on
+	// traffic would let a steady stream of requests postpone the tick forever
+	nRearm := 0
+	eachInstr(fn, func(in ssa.Instruction) {
+		if _, isDefer := in.(*ssa.Defer); isDefer {
+			return
+		}
+		if c := callOf(in); c != nil {
+			switch w.calleeName(c) {
+			case "(*time.Ticker).Reset", "(*time.Ticker).Stop":
+				nRearm++
+				r.bad(rule, "ingestWorker:ticker-rearmed", w.instrPos(in), "the flush-check ticker is reset or stopped inside the worker loop: requests that buffer nothing (empty or rejected batches) arriving faster than the period postpone the time check indefinitely, so buffered rows are not flushed by MaxBufferedTime")
+			}
+		}
+	})
+	if nRearm == 0 {
+		r.ok(rule, "ingestWorker:ticker-never-rearmed", w.pos(fn.Pos()), "no Reset/Stop of the ticker besides the deferred Stop")
+	}
 	r.check(tickerOK && tickCase, rule, "ingestWorker:ticker", w.pos(fn.Pos()), "select case on a constant-period ticker", "the ingest actor no longer wakes on a constant-period ticker: buffered rows wait for the next batch or Flush")
 	bad := ""
 	for _, b := range fn.Blocks {
@@ -769,4 +841,53 @@ func c10R2(w *World, r *Report) {
 			r.check(okc, rule, "store(bufferStartTime)@"+host, w.instrPos(in), "set at first buffered row / reset at flush", "bufferStartTime is rewritten outside its two owners: the age of buffered rows is lost")
 		})
 	}
+}
+
+// c10AllowedGuard: conditions that may decide whether a limit comparison runs.
+func c10AllowedGuard(w *World, cond ssa.Value, blk *ssa.BasicBlock) bool {
+	for {
+		if u, ok := cond.(*ssa.UnOp); ok && u.Op == token.NOT {
+			cond = u.X
+			continue
+		}
+		break
+	}
+	// loop conditions
+	for _, p := range blk.Preds {
+		if blk.Dominates(p) {
+			return true
+		}
+	}
+	switch x := cond.(type) {
+	case *ssa.Phi: // the already-decided flag (a boolean accumulated from constants)
+		return true
+	case *ssa.Extract: // comma-ok of a map lookup / range-over-map has-next
+		return true
+	case *ssa.Call:
+		n := w.calleeName(&x.Call)
+		return strings.HasSuffix(n, ".IsZero") || strings.HasPrefix(n, "builtin.")
+	case *ssa.UnOp: // a plain boolean load: only the request's own forceFlush
+		return w.path(x) == "p:req.forceFlush"
+	case *ssa.BinOp:
+		for _, side := range []ssa.Value{x.X, x.Y} {
+			if isErrorType(side.Type()) {
+				return true
+			}
+			p := w.path(side)
+			if strings.HasPrefix(p, "p:b.config.Max") || strings.HasPrefix(p, "len(") || strings.HasPrefix(p, "call:builtin.len") {
+				return true
+			}
+			if _, isNil := side.(*ssa.Const); isNil && isNilConst(side) {
+				return true
+			}
+		}
+		// counters compared with constants (bufferedRowCount > 0)
+		if _, isC := x.Y.(*ssa.Const); isC {
+			px := w.path(x.X)
+			if strings.HasPrefix(px, "*p:buffered") || strings.HasSuffix(px, ".rowCount") || strings.HasSuffix(px, ".uncompressedSize") {
+				return true
+			}
+		}
+	}
+	return false
 }
